@@ -19,7 +19,7 @@ def check(ctx):
         "simplify on/off, tactic orders; the real quotient_tactics with linprog recorded and replayed into the translated "
         "algebra over the polyhedral model; C02's conclusion decided exactly per result (case split of the 'honours' hypotheses, "
         "certificates re-checked by base/Farkas.v). non-trivial = a quotient was returned or IncompatibleArgsError; distinct by input")
-    proved = ctx.prove("props/C02.v", ["proofs/PolyDomainFacts.v", "proofs/TacticsFacts.v", "proofs/AlgebraSound.v"])
+    proved = ctx.prove("props/C02.v", ["proofs/PolyDomainFacts.v", "proofs/TacticsFacts.v", "proofs/AlgebraSound.v", "proofs/WrapGenQuotient.v"])
     ctx.build(["model/PolyDomain.vo", "base/Farkas.vo"])
     rng = random.Random(ctx.seed + 2)
     n = (150 if ctx.quick else 3000) * (1 if proved else 3)
